@@ -9,12 +9,12 @@ def theory_card(**kw):
     t = dict(
         PTO=1, PTODIS=None, FNS="ZM-VFNS", NfFF=3, nf0=3,
         mc=1.5, mb=4.5, mt=173.0, kcThr=1.0, kbThr=1.0, ktThr=1.0,
-        MaxNfPdf=6, MP=0.9375, Q0=1.25, HQ="POLE", TMC=0,
+        MaxNfPdf=6, MP=0.9375, Q0=1.25, TMC=0,
         RenScaleVar=False, FactScaleVar=False,
         CKM=CKM_DEFAULT, MW=80.375, MZ=91.1875, GF=1.1663787e-5, SIN2TW=0.234375,
         FONLLParts="full", n3lo_cf_variation=0,
         alphas=0.118, Qref=91.2, nfref=5, alphaqed=0.007496252, QED=0, ModEv="EXA", IC=1,
-        XIF=1.0, XIR=1.0,
+        XIF=1.0, XIR=1.0, MaxNfAs=6, Qmc=1.5, Qmb=4.5, Qmt=173.0, HQ="POLE",
     )
     t.update(kw)
     if t["PTODIS"] is None:
